@@ -409,7 +409,10 @@ def strat_lists_(draw):
   has_unit = "'fam': 'unit'" in repr(fl)      # some member has an exact root at z = 1
   wel = st.one_of(st.sampled_from([0, 0.0]), _w) if has_unit else _w
   ws = draw(st.one_of(wel.map(lambda w: [w]), st.lists(wel, min_size=1, max_size=3)))
-  return {"fl": fl, "ws": ws, "scalar": len(ws) == 1 and draw(st.booleans())}
+  # optionally replace one member in place after the first response has been taken
+  # (a filter list is a mutable list: the response must follow its current members)
+  repl = draw(st.one_of(st.none(), st.tuples(st.integers(0, 2), _member(0), st.sampled_from(["setitem", "slice", "pop-insert"]))))
+  return {"fl": fl, "ws": ws, "scalar": len(ws) == 1 and draw(st.booleans()), "replace": repl}
 
 
 def strat_lists(tier):
@@ -514,6 +517,30 @@ def run_lists(case):
   if any(k == "nan" for k, _, _ in refs):
     labels.append("nan")
   labels.append("err<=0.1 eps" if worst <= .1 else "err>0.1 eps")
+  repl = case.get("replace")
+  if repl is not None and fl["items"]:
+    i, member, how = repl
+    i %= len(fl["items"])
+    fl2 = dict(fl, items=fl["items"][:i] + [member] + fl["items"][i + 1:])
+    ok = True
+    try:
+      refs2 = [ref_list(fl2, w) for w in ws]
+    except Exception:
+      ok = False      # the replacement makes the reference undefined at these frequencies
+    if ok and not any(k == "nan" for k, _, _ in refs2):
+      new = build_member(member)
+      if how == "setitem":
+        filt[i] = new
+      elif how == "slice":
+        filt[i:i + 1] = [new]
+      else:
+        filt.pop(i)
+        filt.insert(i, new)
+      got2 = [filt.freq_response(w) for w in ws]
+      for w, g, (k, r, e) in zip(ws, got2, refs2):
+        check_value(g, k, r, e, "%s after replacing member %d in place (%s) at w=%r" % (fl["m"], i, how, w))
+      labels.append("member replaced in place")
+      fl, refs, got = fl2, refs2, got2
   # all-FIR structure: the same structure applied to an impulse has this response
   taps = fir_taps(fl)
   if taps is not None and fl["items"]:
